@@ -27,14 +27,17 @@ IncData == << T("text", "J", NoE, ""), T("print", "", Dv, ""), T("if", "", Iv, "
 \* a template that includes another one: the innermost sees the scopes of the whole chain of includers
 IncNested == << T("text", "J", NoE, ""), T("set", "w", ELit(<<"m">>), ""), T("include", "inc", NoE, ""),
                 T("if", "", Y, ""), T("print", "", Y, ""), T("end", "", NoE, "") >>
-Lib == [inc |-> IncScope, incd |-> IncData, inc2 |-> IncNested]
+\* a PURE PASS-THROUGH includer: no loop and no assignment of its own at its include -- the innermost template must still see the
+\* scopes of the templates above it (a lookup that stops at an includer "with nothing to say" loses them)
+IncPass == << T("text", "J", NoE, ""), T("include", "inc", NoE, "") >>
+Lib == [inc |-> IncScope, incd |-> IncData, inc2 |-> IncNested, inc3 |-> IncPass]
 
 \* ---------------- alphabets per theme
 Leafs ==
   CASE Theme = "flow" -> {T("text", "t1", NoE, ""), T("print", "", X, ""), T("print", "", Iv, ""), T("print", "", ELoop("index"), ""),
                           T("print", "", ELoop("last"), ""), T("set", "x", ENum(1), ""), T("setg", "y", ENum(2), "")}
     [] Theme = "scope" -> {T("text", "t1", NoE, ""), T("print", "", X, ""), T("print", "", Y, ""), T("set", "x", ELit(<<"s">>), ""),
-                           T("set", "y", X, ""), T("setg", "x", ELit(<<"g">>), ""), T("include", "inc", NoE, ""), T("include", "inc2", NoE, "")}
+                           T("set", "y", X, ""), T("setg", "x", ELit(<<"g">>), ""), T("include", "inc", NoE, ""), T("include", "inc2", NoE, ""), T("include", "inc3", NoE, "")}
     [] Theme = "capture" -> {T("text", "t2", NoE, ""), T("print", "", X, ""), T("print", "", Dv, ""), T("print", "", Iv, ""),
                              T("include", "incd", NoE, ""), T("set", "x", Dv, "")}
     \* "nest": captures inside captures (to depth 3) around includes and prints -- few tokens, so 6 of them are affordable
